@@ -1036,6 +1036,8 @@ class Inf:
 
 def lift(ctx, x):
     if isinstance(x, Sym):
+        if x.ctx is not ctx:
+            raise Unsupported("a symbolic value from an earlier run reached this one: the library keeps hidden state between calls")
         return x
     if isinstance(x, SymFloat):
         return x.sym
